@@ -322,10 +322,9 @@ func Run(ctx *core.Ctx) int {
 	}
 	kinds := []string{PRE, OVERLOAD, MID, POST}
 	maxFaults := 2
-	progsList := []string{"storemap"}
+	progsList := []string{"storemap", "twostages"}
 	if ctx.Thorough() {
 		maxFaults = 3
-		progsList = []string{"storemap", "twostages"}
 	}
 	st := core.ParallelEnum(ctx, func(emit func(Case) bool) {
 		for _, prog := range progsList {
